@@ -25,6 +25,8 @@ func init() {
 var groupBySites = []struct{ rel, fn string }{{"execution/nodes", "(*SimpleGroupBy).Run"}, {"execution/nodes", "(*CustomTriggerGroupBy).Run"}}
 
 func runC03(c *core.Ctx) {
+	c.Rule("UNIQ", "output column names are made pairwise distinct")
+	checkUniqueNaming(c, "UNIQ")
 	c.Rule("PARSECOV", "no clause the grammar accepts is silently ignored by the parser")
 	checkParserCoverage(c, "PARSECOV")
 	p := c.Prog
